@@ -126,4 +126,33 @@ example :
     findSandbox [s0, s1] 0x6a0400000010 = some s1 ∧ ptrStore 16 4 0x6a0400000010 0x6a0400000abc = 0xabc := by
   refine ⟨⟨⟨by decide, by decide, by decide⟩, by decide, by decide⟩, by decide, by decide, by decide, by decide⟩
 
+/-- Function pointers: null and only null is represented by 0, in both directions, with and without
+the sandbox context; a representation that designates a library function or a callback entry point
+round-trips. (`nlib < cbBase`: the two index ranges of the backend's table are disjoint.) -/
+theorem C04_fn_null (nlib cbBase ncb : Nat) :
+    fnToApp nlib cbBase ncb 0 = .null ∧ fnToGuest cbBase .null = some 0 := ⟨rfl, rfl⟩
+
+theorem C04_fn_nonnull (nlib cbBase ncb rep : Nat) (h : rep ≠ 0) : fnToApp nlib cbBase ncb rep ≠ .null := by
+  unfold fnToApp backendFn
+  simp only [h, if_false]
+  split
+  · intro e; cases e
+  · split <;> intro e <;> cases e
+
+theorem C04_fn_roundtrip (nlib cbBase ncb rep : Nat) (hd : nlib < cbBase)
+    (hv : rep = 0 ∨ (1 ≤ rep ∧ rep ≤ nlib) ∨ (cbBase ≤ rep ∧ rep < cbBase + ncb)) :
+    fnToGuest cbBase (fnToApp nlib cbBase ncb rep) = some rep := by
+  unfold fnToApp backendFn
+  rcases hv with h | h | h
+  · simp [h, fnToGuest]
+  · have h0 : rep ≠ 0 := by omega
+    have hc : ¬ (cbBase ≤ rep ∧ rep < cbBase + ncb) := by omega
+    simp only [h0, if_false, hc, h, and_self, if_true, fnToGuest]
+    congr 1; omega
+  · have h0 : rep ≠ 0 := by omega
+    simp only [h0, if_false, h, and_self, if_true, fnToGuest]
+    congr 1; omega
+
+example : fnToApp 3 0x4000 8 2 = .lib 1 ∧ fnToApp 3 0x4000 8 0x4001 = .cb 1 ∧ fnToApp 3 0x4000 8 77 = .other := by decide
+
 end Rlbox.C04
